@@ -145,6 +145,21 @@ pub fn check_set(name: &str, leafs: &[[u8; 32]]) -> (u64, Vec<(String, String)>)
                 count += 1;
             }
         }
+        // (3) proofs that smuggle the root itself in as a leaf or a truncated sub-tree, alone or below one-sided levels: a
+        //     leaf's bytes are never a node hash, and a wholly truncated tree says nothing about the item
+        {
+            let e = || Box::new(P::Empty);
+            let forms: Vec<(&str, P)> = vec![
+                ("root-as-leaf", P::Term(root)), ("root-truncated", P::Trunc(root)),
+                ("root-as-leaf-right-of-empty", P::Mid(e(), Box::new(P::Term(root)))), ("root-as-leaf-left-of-empty", P::Mid(Box::new(P::Term(root)), e())),
+                ("root-truncated-right-of-empty", P::Mid(e(), Box::new(P::Trunc(root)))), ("root-truncated-left-of-empty", P::Mid(Box::new(P::Trunc(root)), e())),
+                ("root-as-leaf-two-levels-right", P::Mid(e(), Box::new(P::Mid(e(), Box::new(P::Term(root)))))),
+                ("root-as-leaf-two-levels-left", P::Mid(Box::new(P::Mid(Box::new(P::Term(root)), e())), e())),
+                ("root-as-leaf-right-then-left", P::Mid(e(), Box::new(P::Mid(Box::new(P::Term(root)), e())))),
+                ("root-as-leaf-left-then-right", P::Mid(Box::new(P::Mid(e(), Box::new(P::Term(root)))), e())),
+            ];
+            for (fname, f) in forms { let mut out = vec![]; ser(&f, &mut out); probes.push((fname.to_string(), out)); }
+        }
         for (pname, p) in probes {
             n += 1;
             if let Ok(v) = validate_merkle_proof(&p, item, &root) {
